@@ -2294,6 +2294,14 @@ class Fouriergate(Gate):
         theta = np.pi / 2
         return [Command(Rgate(theta), reg)]
 
+    def merge(self, other):
+        # the gate has no free parameter: two Fourier gates are a rotation by pi, not a Fourier gate
+        if not isinstance(other, Fouriergate):
+            raise MergeFailure("Not the same gate family.")
+        if self.dagger != other.dagger:
+            return None  # identity gate
+        return Rgate(-np.pi if self.dagger else np.pi)
+
     def __str__(self):
         """String representation for the gate."""
         temp = "Fourier"
